@@ -66,6 +66,14 @@ def cases(ctx):
             pos, neg, ep, en = _stat_source(rng, big)
             kind = "stat-big" if big else "stat"
             K = 120 if big else 200
+            if i % 20 == 11:
+                # a small hard stratum beside a large easy count (the documented use: a few scored samples, the rest assumed easy): an
+                # expected hard-stratum size off by a fraction of one sample shows only in the mean over thousands of samples
+                npos_, nneg_ = int(rng.integers(15, 31)), int(rng.integers(15, 31))
+                allv_ = rng.permutation(npos_ + nneg_).astype(float) * 0.25 - 7.0
+                pos, neg = allv_[:npos_], allv_[npos_:]
+                ep, en = int(rng.choice([5000, 50000, 400])), int(rng.choice([9000, 90000, 600]))
+                kind, K = "stat-lopsided", 4000
         else:
             big = rng.random() < 0.1
             pos, neg, kind = gen.scores(rng, min_pos=1, min_neg=1, maxn=40, big=big)
@@ -75,6 +83,8 @@ def cases(ctx):
             K = 25
         sc, ec = gen.cfg(rng)
         mode = MODES[int(rng.integers(0, len(MODES)))]
+        if stat and kind == "stat-lopsided":
+            mode = (str(rng.choice(["replacement", "single_pass", "dynamic"])), None, False, None)
         if not stat and rng.random() < 0.15:
             # degenerate kernel bandwidths: smoothing of (nearly) constant classes, signed zeros, one-sample classes
             pos, neg, kind = gen.scores(rng, min_pos=1, min_neg=1, maxn=int(rng.choice([4, 12, 40])), kinds=["negzero", "pool5", "lattice", "ulp"])
@@ -99,12 +109,12 @@ def scenarios(ctx):
 
 def _ztest(sess, name, mean, mu, var_bound, K, confirm, witness, sig):
     """Two-stage z-test; `confirm()` returns (mean, K2) from an independent stream."""
-    z = (mean - mu) / math.sqrt(var_bound / K)
+    z = (mean - mu) / np.sqrt(np.asarray(var_bound, dtype=float) / K)
     bad = np.abs(z) > Z_CRIT
     ok = True
     if np.any(bad):
         mean2, K2 = confirm()
-        z2 = (mean2 - mu) / math.sqrt(var_bound / K2)
+        z2 = (mean2 - mu) / np.sqrt(np.asarray(var_bound, dtype=float) / K2)
         ok = not bool(np.any((np.abs(z2) > Z_CRIT) & bad))
         z = np.where(bad, z2, z)
     sess.check("S-bs", ok, name, lambda: dict(witness(), z_max=float(np.max(np.abs(z))), expected=mu if np.ndim(mu) == 0 else "vector"), sig=sig, key="stat-" + name.split(":")[0])
@@ -184,8 +194,17 @@ def execute(ctx, case):
                 _ztest(sess, "multiplicity-pos: mean multiplicity of some positive score is not 1", mp / K, 1.0, 1.3, K, lambda: (confirm_all()[0] / (4 * K), 4 * K), w, sig)
                 _ztest(sess, "multiplicity-neg: mean multiplicity of some negative score is not 1", mn / K, 1.0, 1.3, K, lambda: (confirm_all()[1] / (4 * K), 4 * K), w, sig)
                 sess.check("S-bs", bool(np.all(mp > 0) and np.all(mn > 0)), "reachability: a source score never appears in K samples", w, sig=sig, key="stat-reach")
-            vb = 2.0 * N_all if rm != "replacement" else N_all / 2.0 + 1.0
             src = np.array([npos, nneg, ep, en], dtype=float)
+            if strat is None:
+                # per stratum: the counts of a non-stratified sample are the marginals of one multinomial draw of N_all (binomial thinning of
+                # a binomial), variance N_all*q*(1-q); a single pass adds the Poisson/binomial noise of the per-score multiplicities (about
+                # the stratum size again) to the two hard strata. 10% slack; far tighter than N_all/2 for a small stratum beside a large one
+                q_ = src / N_all
+                vb = 1.1 * N_all * q_ * (1 - q_) + 0.5
+                if rm != "replacement":
+                    vb = vb + np.array([1.1 * npos, 1.1 * nneg, 0.0, 0.0])
+            else:
+                vb = 2.0 * N_all if rm != "replacement" else N_all / 2.0 + 1.0
             _ztest(sess, "sizes: mean class/stratum sizes differ from the source's", sizes / K, src, vb, K, lambda: (confirm_all()[2] / (4 * K), 4 * K), w, sig)
     sess.sig_counts[("case", case["kind"], method, strat, smoothing, sc, ec)] += 1
     return True
